@@ -7,9 +7,11 @@ use std::panic::{AssertUnwindSafe, catch_unwind};
 
 use librqbit_utp::verif as v;
 
+mod comp_cubic;
 mod comp_rtte;
 mod comp_rx;
 mod comp_segs;
+mod comp_tx;
 mod comp_seqnr;
 mod util;
 
@@ -18,6 +20,8 @@ const DISPATCHERS: &[fn(&[&str]) -> Option<String>] = &[
     comp_rtte::dispatch,
     comp_rx::dispatch,
     comp_segs::dispatch,
+    comp_tx::dispatch,
+    comp_cubic::dispatch,
 ];
 
 fn run_consts() -> String {
